@@ -73,7 +73,7 @@ def finalize(results, counters, tier, seed):
         inc.append("too few metrics-mode runs: %r" % counters.get("status"))
     if mon.get("plain-runs", 0) == 0:
         inc.append("no differential plain run")
-    miss = [s for s in ("m-partitioned", "m-part-occ-two-level", "m-merger-dynamic", "m-merger-static", "m-lf-same-rank-different-leaders", "m-multi-rank-intersector", "m-leader-follower", "m-two-finger", "m-skip-ahead", "m-sequencer",
+    miss = [s for s in ("m-partitioned", "m-part-occ-two-level", "m-merger-dynamic", "m-merger-static", "m-reread-partitioned", "m-eager-two-roots", "m-lf-same-rank-different-leaders", "m-multi-rank-intersector", "m-leader-follower", "m-two-finger", "m-skip-ahead", "m-sequencer",
                         "m-three-level", "m-eager", "m-einsums2", "m-einsums3", "accel-gamma",
                         "accel-extensor", "accel-sigma", "accel-outerspace")
             if counters.get("strata_compiled", {}).get(s, 0) == 0]
